@@ -32,6 +32,9 @@ inductive Ev where
   | handoff (t t' : Thread) (m : Lock)
   /-- access of location `x` by `t`; `f` = index of the static fact this access instantiates -/
   | acc (t : Thread) (x : Loc) (f : Nat)
+  /-- thread `t` executes spawn statement `s` (a `go` statement, `time.AfterFunc`, `errgroup.Go`),
+      creating thread `t'`.  No effect on the mutexes: a goroutine starts with none. -/
+  | fork (t t' : Thread) (s : Nat)
 deriving DecidableEq, Repr
 
 abbrev Holder := Lock → Option Thread
@@ -47,6 +50,7 @@ def step (h : Holder) : Ev → Option Holder
   | .rel t m => if h m = some t then some (h.set m none) else none
   | .handoff t t' m => if h m = some t then some (h.set m (some t')) else none
   | .acc _ _ _ => some h
+  | .fork _ _ _ => some h
 
 def run (h : Holder) : List Ev → Option Holder
   | [] => some h
@@ -73,6 +77,15 @@ def localHeld (t : Thread) (m : Lock) : List Ev → Bool → Bool
   | .handoff t' t'' m' :: es, b =>
       localHeld t m es (if m' = m then (if t'' = t then true else if t' = t then false else b) else b)
   | .acc _ _ _ :: es, b => localHeld t m es b
+  | .fork _ _ _ :: es, b => localHeld t m es b
+
+/-- the thread that performs the step -/
+def evThread : Ev → Thread
+  | .acq t _ => t
+  | .rel t _ => t
+  | .handoff t _ _ => t
+  | .acc t _ _ => t
+  | .fork t _ _ => t
 
 /-! ## Static facts -/
 
